@@ -244,6 +244,59 @@ fn c11_eq_rust_str() {
     assert!((x == s) == want);
 }
 
+
+// BOUND: at most 3 code units
+// FN: JsStr::get (range forms), JsStr::get_expect, JsStr::contains
+#[kani::proof]
+#[kani::unwind(9)]
+fn c11_ranges_and_contains() {
+    let a = any_seq();
+    let na = a.narrow();
+    let x = repr(&a, &na);
+    let (i, j): (usize, usize) = (kani::any(), kani::any());
+    kani::assume(i <= 4 && j <= 4);
+    kani::cover!(i < j && j <= a.n && x.is_latin1());
+    kani::cover!(j > a.n);
+    let same = |s: Option<JsStr<'_>>, m: Option<&[u16]>| match (s, m) {
+        (Some(s), Some(m)) => s.len() == m.len() && s.iter().eq(m.iter().copied()),
+        (None, None) => true,
+        _ => false,
+    };
+    assert!(same(x.get(i..j), a.units().get(i..j)));
+    assert!(same(x.get(i..), a.units().get(i..)));
+    assert!(same(x.get(..j), a.units().get(..j)));
+    assert!(same(x.get(..), Some(a.units())));
+    if i < j && j <= 3 {
+        assert!(same(x.get(i..=j - 1), a.units().get(i..=j - 1)));
+    }
+    if i < a.n {
+        assert!(x.get_expect(i) == a.u[i]);
+    }
+    let b: u8 = kani::any();
+    assert!(x.contains(b) == a.units().contains(&(b as u16)));
+}
+
+// FN: CodePoint::as_u32, CodePoint::code_unit_count, CodePoint::as_char, CodePoint::encode_utf16
+#[kani::proof]
+#[kani::unwind(6)]
+fn c11_code_point_methods() {
+    let c: char = kani::any();
+    let s: u16 = kani::any();
+    kani::assume((0xD800..0xE000).contains(&s));
+    kani::cover!(c as u32 > 0xFFFF);
+    let u = CodePoint::Unicode(c);
+    let l = CodePoint::UnpairedSurrogate(s);
+    assert!(u.as_u32() == c as u32 && l.as_u32() == s as u32);
+    assert!(u.code_unit_count() == if (c as u32) > 0xFFFF { 2 } else { 1 } && l.code_unit_count() == 1);
+    assert!(u.as_char() == Some(c) && l.as_char().is_none());
+    let mut buf = [0u16; 2];
+    let enc = u.encode_utf16(&mut buf);
+    let mut want = [0u16; 2];
+    assert!(enc == c.encode_utf16(&mut want));
+    let mut buf2 = [0u16; 2];
+    assert!(l.encode_utf16(&mut buf2) == [s]);
+}
+
 #[kani::proof]
 #[kani::unwind(9)]
 fn c11_canary_must_fail() {
